@@ -1,23 +1,28 @@
 #!/bin/bash
-# usage: tools/confirm_seed.sh <Cnn> <variant> [pytest paths...]
-# Confirms a seeded change in a scratch worktree: demo passes clean, fails patched, given tests have no new failures.
+# usage: tools/confirm_seed.sh <Cnn> <variant>
+# Confirms a seeded change in a scratch worktree:
+#   demo passes on the clean tree, fails with the patch; the full baseline suite has no new failing test ids.
+# Result: /tmp/seed/confirm/<Cnn>_<variant>.txt ; the worktree is removed afterwards.
 set -u
-P=$1; V=$2; shift 2
+P=$1; V=$2
 SRC=/tmp/seed/out/$P/$V
+OUT=/tmp/seed/confirm; mkdir -p $OUT
 WT=/tmp/confirm_${P}_$V
+BASE=$OUT/baseline_fail.txt
+run_suite() {  # $1 = dir ; prints sorted failing ids
+  (cd $1 && PYTHONPATH=$1:$1/lint_rules /venv/bin/python -m pytest -q -rfE -p no:cacheprovider --timeout=900 --continue-on-collection-errors -n 6 2>&1 \
+     | grep -E '^(FAILED|ERROR) ' | sed -E 's/ - .*//' | sort -u)
+}
 git -C /repo worktree add -q --detach $WT HEAD || exit 3
-cd $WT
-export PYTHONPATH=$WT:$WT/lint_rules
-/venv/bin/python $SRC/demo.py > /tmp/confirm_${P}_$V.clean.log 2>&1; RC_CLEAN=$?
-git apply $SRC/patch.diff || { echo "patch does not apply"; cd /; git -C /repo worktree remove --force $WT; exit 3; }
-/venv/bin/python $SRC/demo.py > /tmp/confirm_${P}_$V.patched.log 2>&1; RC_PATCHED=$?
-TESTS="$*"
-if [ -z "$TESTS" ]; then
-  TESTS=$(git diff --name-only | xargs -n1 dirname | sort -u | while read d; do [ -d $d/tests ] && echo $d/tests; done | tr '\n' ' ')
-fi
-T_PATCHED=$(/venv/bin/python -m pytest -q -p no:cacheprovider --timeout=900 -x -n 4 $TESTS 2>&1 | tail -1)
-git checkout -q -- .
-T_CLEAN=$(/venv/bin/python -m pytest -q -p no:cacheprovider --timeout=900 -n 4 $TESTS 2>&1 | tail -1)
+if [ ! -s $BASE ]; then run_suite $WT > $BASE; fi
+cd $WT; export PYTHONPATH=$WT:$WT/lint_rules
+/venv/bin/python $SRC/demo.py > $OUT/${P}_$V.demo_clean.log 2>&1; RC_CLEAN=$?
+git apply $SRC/patch.diff || { echo "$P/$V patch does not apply" > $OUT/${P}_$V.txt; cd /; git -C /repo worktree remove --force $WT; exit 3; }
+/venv/bin/python -c "import loki" > /dev/null 2>&1; RC_IMPORT=$?
+/venv/bin/python $SRC/demo.py > $OUT/${P}_$V.demo_patched.log 2>&1; RC_PATCHED=$?
+run_suite $WT > $OUT/${P}_$V.fail.txt
+NEW=$(comm -13 $BASE $OUT/${P}_$V.fail.txt | wc -l)
 cd /; git -C /repo worktree remove --force $WT
-echo "$P/$V demo clean rc=$RC_CLEAN patched rc=$RC_PATCHED | tests[$TESTS] clean: $T_CLEAN | patched: $T_PATCHED"
-tail -2 /tmp/confirm_${P}_$V.patched.log
+{ echo "$P/$V import_rc=$RC_IMPORT demo_clean_rc=$RC_CLEAN demo_patched_rc=$RC_PATCHED new_failing_tests=$NEW baseline_failing=$(wc -l < $BASE)";
+  comm -13 $BASE $OUT/${P}_$V.fail.txt | head -10; } > $OUT/${P}_$V.txt
+cat $OUT/${P}_$V.txt
